@@ -96,13 +96,21 @@ func (r *Rng) GenTypedVal(t *SchTy) *Val {
 		}
 	case 'L':
 		v := &Val{Kind: KList}
-		for i, n := 0, r.Intn(4); i < n; i++ {
+		n := r.Intn(4)
+		if (t.Elem.K == 'R' || t.Elem.K == 'M' || t.Elem.K == 'L') && r.Chance(60) {
+			n = 2 + r.Intn(3) // several children: repeated use of the child assembler
+		}
+		for i := 0; i < n; i++ {
 			v.L = append(v.L, r.genTypedSlot(t.Elem, t.Nul))
 		}
 		return v
 	case 'M':
 		v := &Val{Kind: KMap}
-		for _, k := range r.distinct(schMapKeys, r.Intn(4)) {
+		n := r.Intn(4)
+		if (t.Elem.K == 'R' || t.Elem.K == 'M' || t.Elem.K == 'L') && r.Chance(60) {
+			n = 2 + r.Intn(3)
+		}
+		for _, k := range r.distinct(schMapKeys, n) {
 			v.M = append(v.M, Entry{k, r.genTypedSlot(t.Elem, t.Nul)})
 		}
 		return v
@@ -128,13 +136,14 @@ func (r *Rng) genTypedSlot(t *SchTy, nul bool) *Val {
 
 // TypedExpect: what the built node must read back as, in Dump's token language; a struct lists
 // all its fields in schema order, an absent optional field reads as "z".
-func TypedExpect(t *SchTy, v *Val) string {
+func TypedExpect(t *SchTy, v *Val, repr bool) string {
 	var sb strings.Builder
-	typedExpect(&sb, t, v)
+	typedExpect(&sb, t, v, repr)
 	return sb.String()
 }
 
-func typedExpect(sb *strings.Builder, t *SchTy, v *Val) {
+// repr: the representation-level view (map representation): absent optional fields are left out
+func typedExpect(sb *strings.Builder, t *SchTy, v *Val, repr bool) {
 	if v.Kind == KNull || (t.K != 'L' && t.K != 'M' && t.K != 'R') {
 		if sb.Len() > 0 {
 			sb.WriteByte(' ')
@@ -149,27 +158,31 @@ func typedExpect(sb *strings.Builder, t *SchTy, v *Val) {
 	case 'L':
 		fmt.Fprintf(sb, "a%d", len(v.L))
 		for _, x := range v.L {
-			typedExpect(sb, t.Elem, x)
+			typedExpect(sb, t.Elem, x, repr)
 		}
 	case 'M':
 		fmt.Fprintf(sb, "m%d", len(v.M))
 		for _, e := range v.M {
 			sb.WriteString(" k" + Hex(e.K))
-			typedExpect(sb, t.Elem, e.V)
+			typedExpect(sb, t.Elem, e.V, repr)
 		}
 	case 'R':
-		fmt.Fprintf(sb, "m%d", len(t.Fields))
+		if repr {
+			fmt.Fprintf(sb, "m%d", len(v.M))
+		} else {
+			fmt.Fprintf(sb, "m%d", len(t.Fields))
+		}
 		for _, f := range t.Fields {
-			sb.WriteString(" k" + Hex(f.Name))
 			found := false
 			for _, e := range v.M {
 				if e.K == f.Name {
-					typedExpect(sb, f.T, e.V)
+					sb.WriteString(" k" + Hex(f.Name))
+					typedExpect(sb, f.T, e.V, repr)
 					found = true
 				}
 			}
-			if !found {
-				sb.WriteString(" z")
+			if !found && !repr {
+				sb.WriteString(" k" + Hex(f.Name) + " z")
 			}
 		}
 	}
@@ -237,11 +250,17 @@ func dumpTyped(sb *strings.Builder, n datamodel.Node) {
 
 func sameShape(a, b *SchTy) bool { return a.Text() == b.Text() }
 
-// TypedBuilder: a fresh builder of the engine ("tbind", "tgen") for type t; nil if the engine has
-// no such type.
+// TypedRepr: engines ending in "r" build through the representation-level prototype.
+func TypedRepr(engine string) bool { return strings.HasSuffix(engine, "r") }
+
+// TypedEngines lists the typed engines of the family.
+var TypedEngines = []string{"tbind", "tbindr", "tgen", "tgenr"}
+
+// TypedBuilder: a fresh builder of the engine ("tbind", "tgen": type level; "tbindr", "tgenr":
+// representation level) for type t; nil if the engine has no such type.
 func TypedBuilder(engine string, t *SchTy) (nb datamodel.NodeBuilder, err error) {
 	switch engine {
-	case "tbind":
+	case "tbind", "tbindr":
 		c := *t
 		tc, perr := SchParse(c.Text()) // a private copy: names are assigned in place
 		if perr != nil {
@@ -256,20 +275,34 @@ func TypedBuilder(engine string, t *SchTy) (nb datamodel.NodeBuilder, err error)
 		if berr != nil {
 			return nil, berr
 		}
-		err = Safely(func() error { nb = p.NewBuilder(); return nil })
+		err = Safely(func() error {
+			if engine == "tbindr" {
+				nb = p.Representation().NewBuilder()
+			} else {
+				nb = p.NewBuilder()
+			}
+			return nil
+		})
 		return nb, err
-	case "tgen":
+	case "tgen", "tgenr":
+		r := engine == "tgenr"
+		pick := func(a, b datamodel.NodePrototype) (datamodel.NodeBuilder, error) {
+			if r {
+				return b.NewBuilder(), nil
+			}
+			return a.NewBuilder(), nil
+		}
 		switch {
 		case sameShape(t, msg3Ty()):
-			return gendemo.Type.Msg3.NewBuilder(), nil
+			return pick(gendemo.Type.Msg3, gendemo.Type.Msg3__Repr)
 		case sameShape(t, SchMapOf(false, msg3Ty())):
-			return gendemo.Type.Map__String__Msg3.NewBuilder(), nil
+			return pick(gendemo.Type.Map__String__Msg3, gendemo.Type.Map__String__Msg3__Repr)
 		case t.K == 'I':
-			return gendemo.Type.Foo.NewBuilder(), nil
+			return pick(gendemo.Type.Foo, gendemo.Type.Foo__Repr)
 		case t.K == 'S':
-			return gendemo.Type.Baz.NewBuilder(), nil
+			return pick(gendemo.Type.Baz, gendemo.Type.Baz__Repr)
 		case t.K == 'B':
-			return gendemo.Type.Bar.NewBuilder(), nil
+			return pick(gendemo.Type.Bar, gendemo.Type.Bar__Repr)
 		}
 		return nil, nil
 	}
